@@ -395,6 +395,26 @@ func runC04(c *Ctx) {
 	// C04.4
 	ruleAssignToken(c, "C04.4")
 
+	// C04.10 user identifiers reach the allocator (shared with C12): otherwise a generated local can shadow a user name
+	{
+		sub := &Ctx{Prop: c.Prop, Tier: c.Tier, L: c.L, FuncsSeen: c.FuncsSeen, Extra: c.Extra}
+		alloc := map[*ssa.Function]bool{}
+		for _, fn := range pkgFuncs(L, genPkg) {
+			if strings.HasSuffix(fn.String(), "VarPool).GetName") || strings.HasSuffix(fn.String(), "VarPool).Get") || strings.HasSuffix(fn.String(), "VarPool).GetChannel") {
+				alloc[fn] = true
+			}
+		}
+		c12Registration(sub, alloc)
+		for _, o := range sub.Obls {
+			o.Rule = "C04.10"
+			c.Obls = append(c.Obls, o)
+		}
+		for _, f := range sub.Finds {
+			f.Rule = "C04.10"
+			c.Finds = append(c.Finds, f)
+		}
+	}
+
 	// C04.5 typed results
 	nR := 0
 	for _, s := range sites {
